@@ -368,6 +368,10 @@ class CreateCheck:
                              "plstr": dict(path=path, piece_length=str(P))}
                     if 14 <= exp <= 25:
                         forms["plexp"] = dict(path=path, piece_length=exp)
+                    # and the same object asked twice: assemble() again before
+                    # writing, write() again to a second path
+                    forms["reassemble"] = dict(path=path, piece_length=P)
+                    forms["write-twice"] = dict(path=path, piece_length=P)
                     for form, fkw in forms.items():
                         of2 = of + "." + form
                         try:
@@ -375,7 +379,12 @@ class CreateCheck:
                                 t = tf.CREATORS[creator](outfile=of2,
                                                          progress=0,
                                                          **dict(kw, **fkw))
+                                if form == "reassemble":
+                                    t.assemble()
                                 t.write()
+                                if form == "write-twice":
+                                    of2 = of2 + ".second"
+                                    t.write(of2)
                             with open(of2, "rb") as f:
                                 m2 = bencode.plain(bencode.decode(
                                     f.read(), strict=False))
